@@ -109,9 +109,6 @@ def _serialize_region_fits(region):
     # translate region class to FITS shape name
     shape = region_clsname.lower().replace('pixelregion', '')
 
-    if region.meta.get('include', None) == 0:
-        shape = f'!{shape}'
-
     region_map = {'circleannulus': 'annulus',
                   'ellipseannulus': 'elliptannulus',
                   'rectangle': 'rotbox'}
@@ -135,6 +132,11 @@ def _serialize_region_fits(region):
 
     if not shape_params:
         shape_params = 0
+
+    # an excluded region is marked by a leading "!" (added only after the
+    # shape name has been used above)
+    if region.meta.get('include', None) == 0:
+        shape = f'!{shape}'
     if rotang is None:
         rotang = u.Quantity(0, 'deg')
 
